@@ -246,6 +246,101 @@ func runC18(c *Ctx) {
 			good, why := c.c18Flags(litFn, st.Val, dictParam)
 			r.Check(good, "R2", key, c.pos(st), "Flags = (Mbit if Must contains \"M\") | (Vbit if VendorID > 0), nothing else", why)
 		}
+		// Data: a grouped value built here, or the field's value after it went through a reflect value of the
+		// type the dictionary prescribes (reflect.New(t) … Interface().(datatype.Type)); a field value used as it
+		// is (because it happens to implement datatype.Type) carries its own type, not the dictionary's
+		key = fname(mf) + ":produced-avp.Data"
+		if st := stores["Data"]; st == nil {
+			r.Fail("R2", key, c.pos(avpAlloc), "the produced AVP's Data is never set")
+		} else {
+			bad := ""
+			seen := map[ssa.Value]bool{}
+			var viaNew func(v ssa.Value, d int) bool
+			viaNew = func(v ssa.Value, d int) bool {
+				if d > 8 || v == nil {
+					return false
+				}
+				if call, ok := v.(*ssa.Call); ok {
+					if o := flow.CalleeObj(call); o != nil && o.Pkg() != nil && o.Pkg().Path() == "reflect" {
+						if o.Name() == "New" {
+							return true
+						}
+						for _, a := range call.Call.Args {
+							if viaNew(a, d+1) {
+								return true
+							}
+						}
+					}
+					return false
+				}
+				if u, ok := v.(*ssa.UnOp); ok {
+					// a reflect.Value kept in a local
+					if al, isAl := u.X.(*ssa.Alloc); isAl {
+						for _, ref := range flow.Referrers(al) {
+							if stv, isSt := ref.(*ssa.Store); isSt && stv.Addr == ssa.Value(al) && viaNew(stv.Val, d+1) {
+								return true
+							}
+						}
+					}
+					return false
+				}
+				if ph, ok := v.(*ssa.Phi); ok {
+					for _, e := range ph.Edges {
+						if !viaNew(e, d+1) {
+							return false
+						}
+					}
+					return len(ph.Edges) > 0
+				}
+				return false
+			}
+			var visit func(v ssa.Value, d int)
+			visit = func(v ssa.Value, d int) {
+				if seen[v] || d > 10 || bad != "" {
+					return
+				}
+				seen[v] = true
+				switch x := v.(type) {
+				case *ssa.Const:
+				case *ssa.Phi:
+					for _, e := range x.Edges {
+						visit(e, d+1)
+					}
+				case *ssa.MakeInterface:
+					if !flow.TypeIs(x.X.Type(), pkgDiam, "GroupedAVP") {
+						if pt, ok := x.X.Type().(*types.Pointer); !ok || !flow.TypeIs(pt.Elem(), pkgDiam, "GroupedAVP") {
+							bad = "a value of type " + x.X.Type().String() + " is used as the AVP's data"
+						}
+					}
+				case *ssa.Extract:
+					ta, ok := x.Tuple.(*ssa.TypeAssert)
+					if !ok {
+						bad = "the AVP's data comes from " + short(x.Tuple.String(), 50)
+						return
+					}
+					if !viaNew(ta.X, 0) {
+						bad = "the value asserted to datatype.Type does not come from a reflect value of the dictionary's type (reflect.New(t))"
+					}
+				case *ssa.TypeAssert:
+					if !viaNew(x.X, 0) {
+						bad = "the value asserted to datatype.Type does not come from a reflect value of the dictionary's type (reflect.New(t))"
+					}
+				case *ssa.UnOp:
+					if al, ok := x.X.(*ssa.Alloc); ok && x.Op == token.MUL {
+						for _, src := range flow.SpillSources(x) {
+							visit(src, d+1)
+						}
+						_ = al
+						return
+					}
+					bad = "the AVP's data is loaded from " + short(x.X.String(), 40)
+				default:
+					bad = "the AVP's data comes from " + short(v.String(), 60) + ", not from the conversion to the dictionary's data type"
+				}
+			}
+			visit(st.Val, 0)
+			r.Check(bad == "", "R2", key, c.pos(st), "Data is a grouped value built here or the field converted to the type the dictionary prescribes", "the produced AVP's Data bypasses the conversion to the dictionary's data type: "+bad+" — the AVP carries a typed value other than the one a caller building it from the dictionary would")
+		}
 	}
 
 	// one AVP per value: once the value dispatch (slices, pointers) is done and the data type is being
@@ -622,8 +717,130 @@ func (c *Ctx) callsTypeSwitchHelper(f *ssa.Function) bool {
 // c18NoSharedState: R6 — dictionary faithfulness per message: what Marshal / Unmarshal produce depends on the
 // message's own dictionary and the struct only. No function on their path writes package-level state (a cache
 // of tag look-ups shared between messages answers for another dictionary).
+// c18OwnSlices: R6 — Marshal never appends to a slice it does not own. A slice taken out of the caller's struct
+// (reflect Value.Interface().([]*AVP)) and everything that may be it (through phis, returns of helpers,
+// parameters, re-slices) must not be the first argument of append: with spare capacity behind it, the append
+// writes into the caller's array and the AVPs marshalled from a later field overwrite the caller's data.
+func (c *Ctx) c18OwnSlices() {
+	r := c.R
+	mf := c.P.Method("diam", "Message", "Marshal")
+	if mf == nil {
+		return
+	}
+	cl := c.reach([]*ssa.Function{mf}, false, false, true)
+	var fns []*ssa.Function
+	for f := range cl {
+		if c.P.IsLibrary(f) && pkgOf(f).Path() == pkgDiam {
+			fns = append(fns, f)
+		}
+	}
+	isAVPSlice := func(t types.Type) bool {
+		sl, ok := t.Underlying().(*types.Slice)
+		if !ok {
+			return false
+		}
+		pt, ok := sl.Elem().(*types.Pointer)
+		return ok && flow.TypeIs(pt.Elem(), pkgDiam, "AVP")
+	}
+	taintedParam := map[*ssa.Parameter]bool{}
+	taintedRet := map[*ssa.Function]bool{}
+	var tainted func(v ssa.Value, seen map[ssa.Value]bool) bool
+	tainted = func(v ssa.Value, seen map[ssa.Value]bool) bool {
+		if v == nil || seen[v] {
+			return false
+		}
+		seen[v] = true
+		switch x := v.(type) {
+		case *ssa.Parameter:
+			return taintedParam[x]
+		case *ssa.Phi:
+			for _, e := range x.Edges {
+				if tainted(e, seen) {
+					return true
+				}
+			}
+		case *ssa.Slice:
+			return tainted(x.X, seen)
+		case *ssa.ChangeType:
+			return tainted(x.X, seen)
+		case *ssa.Extract:
+			if ta, ok := x.Tuple.(*ssa.TypeAssert); ok {
+				return isAVPSlice(ta.AssertedType)
+			}
+			if call, ok := x.Tuple.(*ssa.Call); ok {
+				if g := flow.StaticCallee(call); g != nil {
+					return taintedRet[g]
+				}
+			}
+		case *ssa.TypeAssert:
+			return isAVPSlice(x.AssertedType)
+		case *ssa.Call:
+			if g := flow.StaticCallee(x); g != nil {
+				return taintedRet[g]
+			}
+		case *ssa.UnOp:
+			if x.Op == token.MUL {
+				for _, src := range flow.SpillSources(x) {
+					if src != ssa.Value(x) && tainted(src, seen) {
+						return true
+					}
+				}
+			}
+		}
+		return false
+	}
+	for round := 0; round < 8; round++ {
+		changed := false
+		for _, f := range fns {
+			for i := 0; i < f.Signature.Results().Len(); i++ {
+				if !isAVPSlice(f.Signature.Results().At(i).Type()) || taintedRet[f] {
+					continue
+				}
+				for _, rv := range flow.ReturnValues(f, i) {
+					if tainted(rv, map[ssa.Value]bool{}) {
+						taintedRet[f] = true
+						changed = true
+					}
+				}
+			}
+			for _, ci := range flow.CallInstrs(f) {
+				g := flow.StaticCallee(ci)
+				if g == nil || !cl[g] {
+					continue
+				}
+				for i, a := range ci.Common().Args {
+					if i < len(g.Params) && !taintedParam[g.Params[i]] && isAVPSlice(a.Type()) && tainted(a, map[ssa.Value]bool{}) {
+						taintedParam[g.Params[i]] = true
+						changed = true
+					}
+				}
+			}
+		}
+		if !changed {
+			break
+		}
+	}
+	n, bad := 0, 0
+	for _, f := range fns {
+		for _, ci := range flow.CallInstrs(f) {
+			if !isBuiltinCall(ci, "append") || len(ci.Common().Args) == 0 || !isAVPSlice(ci.Common().Args[0].Type()) {
+				continue
+			}
+			n++
+			if tainted(ci.Common().Args[0], map[ssa.Value]bool{}) {
+				bad++
+				r.Fail("R6", fname(f)+":append-to-callers-slice", c.pos(ci), "Marshal appends to a slice that may be one taken from the caller's struct: with spare capacity behind it the append overwrites the caller's array (and the AVPs of a later field), so the message no longer carries the struct's values")
+			}
+		}
+	}
+	if bad == 0 {
+		r.Ok("R6", "marshal-path:appends-to-own-slices", "-", fmt.Sprintf("%d appends of AVP lists on the Marshal path, none onto a slice that can come from the caller's struct", n))
+	}
+}
+
 func (c *Ctx) c18NoSharedState() {
 	r := c.R
+	c.c18OwnSlices()
 	var roots []*ssa.Function
 	for _, n := range []string{"Marshal", "Unmarshal"} {
 		if f := c.P.Method("diam", "Message", n); f != nil {
